@@ -21,7 +21,8 @@ CONSTANT MaxPre    \* number of blocks before the faulty block (0..MaxPre)
 Blocks == <<"; a comment with ( and \"\n", "\n", "(def a1 1)\n", "(def a2\n  (+ 1\n     2))\n",
             "(def a3 ¬line1\nline2 (\nline3¬)\n", "(def a4 \"s\") ; trailing comment\n\n">>
 Faults == <<[n |-> "undefined", t |-> "undefined-sym"], [n |-> "throw", t |-> "(throw \"boom\")"],
-            [n |-> "builtin", t |-> "(nth [1] 5)"], [n |-> "assert", t |-> "(assert false \"failed\")"]>>
+            [n |-> "builtin", t |-> "(nth [1] 5)"], [n |-> "assert", t |-> "(assert false \"failed\")"],
+            [n |-> "thread-builtin", t |-> "(-> [1] (nth 5))"], [n |-> "thread-last-throw", t |-> "(->> \"boom\" (throw))"]>>
 
 \* wrappers: d = definition form (earlier top-level form) or "", b/a = text before/after the fault,
 \* where = "call" if the fault sits in the calling form, "def" if it sits in the definition form
@@ -42,6 +43,14 @@ Wrappers == <<
   [n |-> "via-map", d |-> "(def ff (fn [p]\n  (do p\n    _F)))\n", b |-> "(map ff\n  [1])", a |-> "\n", where |-> "def"],
   [n |-> "via-apply", d |-> "(def ff (fn [p]\n  (do p\n    _F)))\n", b |-> "(apply ff\n  [1])", a |-> "\n", where |-> "def"],
   [n |-> "closure", d |-> "(def mk (fn []\n  (fn [p]\n    (list p\n      _F))))\n", b |-> "((mk) 1)", a |-> "\n", where |-> "def"],
+  [n |-> "via-let-binding", d |-> "(def ff (fn [p]\n  (do p\n    _F)))\n", b |-> "(let [q 1\n      r (ff q)]\n  r)", a |-> "\n", where |-> "def"],
+  [n |-> "via-if-cond", d |-> "(def ff (fn [p]\n  (do p\n    _F)))\n", b |-> "(if (ff 1)\n  1\n  2)", a |-> "\n", where |-> "def"],
+  [n |-> "via-def", d |-> "(def ff (fn [p]\n  (do p\n    _F)))\n", b |-> "(def r\n  (ff 1))", a |-> "\n", where |-> "def"],
+  [n |-> "via-arg", d |-> "(def ff (fn [p]\n  (do p\n    _F)))\n", b |-> "(list 1\n  (ff 1))", a |-> "\n", where |-> "def"],
+  [n |-> "via-try", d |-> "(def ff (fn [p]\n  (do p\n    _F)))\n", b |-> "(try\n  (ff 1)\n  (finally 2))", a |-> "\n", where |-> "def"],
+  [n |-> "via-swap", d |-> "(def ff (fn [p]\n  (do p\n    _F)))\n", b |-> "(swap! (atom 1)\n  ff)", a |-> "\n", where |-> "def"],
+  [n |-> "via-tail", d |-> "(def ff (fn [p]\n  (if p\n    (ff nil)\n    _F)))\n", b |-> "(do 1\n  (ff 1))", a |-> "\n", where |-> "def"],
+  [n |-> "via-two-fns", d |-> "(def ff (fn [p]\n  (do p\n    _F)))\n", b |-> "(def gg (fn []\n  (ff 1)))\n(gg)", a |-> "\n", where |-> "def"],
   [n |-> "macro-arg", d |-> "(defmacro twice (fn [e]\n  `(do ~e ~e)))\n", b |-> "(twice\n  ", a |-> ")\n", where |-> "call"] >>
 
 RECURSIVE NL(_, _)
